@@ -69,3 +69,23 @@ Definition clip_to (size : option Z) (x : Z) : Z :=
    one below the exact i-th cut point i * span / n *)
 Definition cut_contract (span n : Z) (cut : Z -> Z) : Prop :=
   forall i, 1 <= i < n -> i * span - n <= n * cut i <= i * span.
+
+(* ---- payload clauses (merge / flatten combine the other fields of the rows an
+   output row stands for) ------------------------------------------------------------ *)
+(* input row r lies inside output row o: the rows a merged row covers *)
+Definition iv_within {A B} (o : @row A) (r : @row B) : bool := (lo o <=? lo r) && (hi r <=? hi o).
+(* input row r contains output piece p: the rows a flattened piece is cut from *)
+Definition iv_contains {A B} (p : @row A) (r : @row B) : bool := (lo r <=? lo p) && (hi p <=? hi r).
+
+(* d = the distinct elements of l in order of first appearance (what pandas.unique
+   returns): a duplicate-free list with the same members as l, ordered by the position
+   of the first occurrence in l *)
+Fixpoint iv_first_index (x : string) (l : list string) : nat :=
+  match l with
+  | [] => O
+  | y :: t => if String.eqb x y then O else S (iv_first_index x t)
+  end.
+
+Definition iv_distinct_in_order (d l : list string) : Prop :=
+  NoDup d /\ (forall x, In x d <-> In x l) /\
+  StronglySorted (fun a b => (iv_first_index a l < iv_first_index b l)%nat) d.
